@@ -35,7 +35,7 @@ func c24(r *core.Run) {
 		"CommitStorageTemporarily is in the reviewed list (executors after success; the three documented temporary commits are known findings); " +
 		"(R3) in every executor function that commits, the commit call is not deferred, is not inside a closure, and executes only on paths where the error result of " +
 		"every error-returning call that precedes it was tested and found nil; (R4) nothing declared in runtime/script_executor.go reaches a commit function; " +
-		"(R5) contract value writes happen only inside commit(commitContractUpdates=true)."
+		"(R5) contract value writes happen only inside commit(commitContractUpdates=true); (R6) inside Storage.commit no fallible metering call is reachable after a register-writing call."
 	r.NotDecided = "that the committed writes hold everything a later transaction observes; host-side buffering; writes performed by the host itself."
 	w := r.W
 
@@ -50,14 +50,12 @@ func c24(r *core.Run) {
 	commitObj := mustObj(r, "R1.write", "runtime", "Storage", "commit")
 	gateCommit := func(f *ssa.Function) bool { return commitObj != nil && f.Object() == commitObj }
 	g := w.GatedCallers(anyOf(isLedgerSetValue, slabCommit), gateCommit)
-	for _, k := range core.SortedKeys(g.Closure) {
-		if _, root := g.Roots[k]; root {
-			r.Bad("R1.write", k+" writes registers outside Storage.commit", g.Closure[k],
-				"function reaches a ledger SetValue / atree slab commit and is not (only) called from runtime.(Storage).commit; next towards the write: "+g.Path[k])
-		} else {
-			r.OK("R1.write", k, g.Closure[k], "reaches a register write; all its callers lead to runtime.(Storage).commit (via "+g.Path[k]+")")
-		}
-	}
+	reportGated(r, "R1.write", g, map[string]string{
+		"runtime.writeSlabIndexToRegister":                     "writes one account storage-map index register",
+		"runtime.(AccountStorage).writeAccountStorageSlabIndex": "commit helper",
+		"runtime.(AccountStorage).commit":                      "account storage commit, called from Storage.commit",
+		"runtime.(ExternalInterface).SetValue":                 "panic/err wrapper delegating to the embedded Interface",
+	}, nil, "a ledger SetValue / atree slab commit", "runtime.(Storage).commit")
 	// the gate itself must still contain both write mechanisms
 	if cf := mustFn(r, "R1.write", "runtime", "Storage", "commit"); cf != nil {
 		census(r, "R1.write", cf, "AccountStorage.commit", methodOf("commit", mod+"/runtime.AccountStorage"), 1)
@@ -81,15 +79,10 @@ func c24(r *core.Run) {
 	allowedRoots := map[string]string{
 		"runtime.(Storage).NondeterministicCommit": "deprecated exported API for migration programs; no caller in shipped code",
 	}
-	for _, k := range core.SortedKeys(g2.Closure) {
-		_, root := g2.Roots[k]
-		if root && allowedRoots[k] == "" {
-			r.Bad("R2.commit", k+" commits outside the environment commit methods", g2.Closure[k],
-				"function reaches Storage.commit and is neither an environment commitStorage/CommitStorageTemporarily method nor only called from one; next: "+g2.Path[k])
-		} else {
-			r.OK("R2.commit", k, g2.Closure[k], "commit wrapper below the environment commit methods "+allowedRoots[k])
-		}
-	}
+	reportGated(r, "R2.commit", g2, map[string]string{
+		"runtime.(Storage).Commit": "deterministic wrapper of commit",
+		"runtime.CommitStorage":    "commit + health check",
+	}, allowedRoots, "Storage.commit", "an environment commitStorage/CommitStorageTemporarily method")
 	r.Floor("R2.commit", 3)
 	envCommit := func(o *types.Func) bool {
 		return o != nil && o.Name() == "commitStorage" && o.Pkg() != nil && o.Pkg().Path() == mod+"/runtime"
@@ -163,6 +156,27 @@ func c24(r *core.Run) {
 		r.Check(hit == "", "R4.script", core.SSAKey(fn), fn.Pos(), "no commit function within 3 static calls", "script executor reaches commit function "+hit)
 	}
 	r.Floor("R4.script", 5)
+
+	// R6 inside Storage.commit no fallible metering call can run after a register-writing call
+	if cf := mustFn(r, "R6.meterorder", "runtime", "Storage", "commit"); cf != nil {
+		writes := core.CallsTo(cf, false, anyOf(methodOf("commit", mod+"/runtime.AccountStorage"), slabCommit))
+		meters := core.CallsTo(cf, false, anyOf(funcOf(mod+"/common", "UseComputation"), funcOf(mod+"/common", "UseMemory")))
+		for _, wr := range writes {
+			late := ""
+			for _, m := range meters {
+				if core.ReachableAfter(wr, m) {
+					late = calleeName(m) + " at " + w.Pos(m.Pos())
+				}
+			}
+			key := "runtime.(Storage).commit: " + calleeName(wr)
+			r.Check(late == "", "R6.meterorder", key, posOf(wr), "no metering call (which can fail the transaction) is reachable after this register write",
+				"metering call "+late+" can fail the transaction after this call has already written registers")
+		}
+		if len(meters) == 0 {
+			r.Undecided("R6.meterorder", "runtime.(Storage).commit", "no metering call found")
+		}
+	}
+	r.Floor("R6.meterorder", 3)
 
 	// R5 contract updates written only from commit
 	whoMayCall(r, "R5.contract", "Storage.writeContractUpdate", methodOf("writeContractUpdate", mod+"/runtime.Storage"), map[string]string{
